@@ -218,7 +218,7 @@ func runC03(cx *CheckCtx) {
 		for _, m := range c.Methods {
 			key := m.String()
 			a := cx.analyze(&Query{Name: "gates", Root: m.Fn})
-			effs := a.Effects()
+			effs := a.RealEffects()
 			if m.Safe {
 				// D4
 				cx.count("safe_methods", 1)
